@@ -190,5 +190,5 @@ def diff_validate(req, resp):
         finally:
             EV.MARGIN[0] = 0.0
     elif "reward_error" in resp:
-        bad.append(f"{req['spec']}[{variant}]: real reward raised {resp['reward_error']}")
+        bad.append(f"{req['spec']}[{variant}]: oracle-side note: real reward computation raised {resp['reward_error']}")
     return bad
